@@ -156,7 +156,10 @@ def lazy_ok(flat):
         return False
     for d in hashed:
         for k, (h, m) in flat.items():
-            if len(k) > len(d) and k[: len(d)] == d and (m == ("d",) or not h or h[0] != "md5"):
+            if len(k) > len(d) and k[: len(d)] == d and (m == ("d",) or not h or h[0] != "md5"
+                                                           or len(k) != len(d) + 1):
+                # (a file deeper than one level has an implicit intermediate directory in the flat index,
+                # while loading the directory object creates an entry for it: not the same index)
                 return False
     return True
 
